@@ -108,7 +108,19 @@ class JaxMod(PyMod):
             else:
                 with jax.disable_jit():
                     out = self.ns[fname](*args)
+        # the inputs must survive the call (e.g. no buffer donation) and be unchanged
+        for n, orig in (("states", s), ("parameters", p)):
+            try:
+                back = np.asarray(vals[n])
+            except Exception as ex:
+                raise InputModified(f"input '{n}' cannot be read after {fname}: {type(ex).__name__}: {str(ex)[:120]}")
+            if not np.array_equal(back, np.asarray(orig), equal_nan=True):
+                raise InputModified(f"input '{n}' was modified by {fname}")
         return out if raw else np.asarray(out, dtype=np.float64)
+
+
+class InputModified(Exception):
+    pass
 
 
 class CMod:
